@@ -2,6 +2,7 @@ import BumpVerif.Proofs.VecOwn
 import BumpVerif.Proofs.VecFilter
 import BumpVerif.Proofs.VecDrain
 import BumpVerif.Proofs.VecMore
+import BumpVerif.Proofs.VecExtend
 /-!
 # C15 (Vec part) — every element is dropped exactly once, only by its owner
 
@@ -20,10 +21,11 @@ the created ids.
 
 Status: proved for push, pop, insert, remove, swap_remove, truncate/clear (destructor panics
 included), append, split_off, drain and into_iter (partially consumed from both ends, dropped or
-forgotten), retain, drain_filter, drop, into_bump_slice.  NOT proved here (covered by the
-drop-ledger oracle and by the model-vs-crate comparison of the `drops`/`moved` sequences only):
-resize, extend, extend_from_slice, splice, dedup(_by/_by_key), clone, into_boxed_slice,
-from_iter_in/collect_in, vec!.
+forgotten), retain, drain_filter, dedup(_by/_by_key), extend and from_iter_in (caller's iterator),
+drop, into_bump_slice.  NOT proved here (covered by the drop-ledger oracle and by the
+model-vs-crate comparison of the `drops`/`moved` sequences only): splice, into_boxed_slice, vec!
+(resize, extend_from_slice and clone are proved in `Props/C16.lean`, for every panic point of
+`Clone`, which includes "never").
 -/
 namespace Bump.V.C15
 open Bump Bump.V
@@ -116,6 +118,16 @@ theorem C15_split_off {c : Cfg} {v : VS} {xs : List Elem} {ins held : List Nat} 
     intro o' ho'; rw [hp] at ho'; simp at ho'; subst ho'; exact h2
   · exact ⟨xs, [], by rw [hp]; exact h, by rw [hp]; simp, fun _ => rfl, by rw [hp]; simpa using ho⟩
 
+theorem C15_dedup_by {c : Cfg} {v : VS} {xs : List Elem} {ins held : List Nat} (hd : c.needsDrop = true)
+    (h : RepB c v xs) (cb : Nat → Elem → Elem → Option Bool) (w : W) (ho : Own ins xs w.evs held) :
+    ∃ ys, RepB c (dedupBy c v cb w).1 ys ∧ Own ins ys (dedupBy c v cb w).2.1.evs held := dedupBy_own hd h cb w ho
+
+/-- `extend(iter)`: the items (held by the caller's iterator before) are owned by the vector
+afterwards -/
+theorem C15_extend {c : Cfg} {v : VS} {xs : List Elem} {ins held : List Nat} (hc : CfgOK c) (hd : c.needsDrop = true)
+    (h : RepB c v xs) (s : Src) (w : W) (ho : Own ins xs w.evs (ids s.items ++ held)) :
+    ∃ ys, RepB c (extend c v (.src s) w).1 ys ∧ Own ins ys (extend c v (.src s) w).2.1.evs held := extend_own hc hd h s w ho
+
 theorem C15_exactly_once {ins evs} (h : Own ins [] evs []) :
     (evDrops evs ++ evMoved evs).Perm ins ∧ (evDrops evs ++ evMoved evs).Nodup := h.exactly_once
 
@@ -142,3 +154,5 @@ end Bump.V.C15
 #print axioms Bump.V.C15.C15_into_iter
 #print axioms Bump.V.C15.C15_append
 #print axioms Bump.V.C15.C15_split_off
+#print axioms Bump.V.C15.C15_dedup_by
+#print axioms Bump.V.C15.C15_extend
